@@ -126,3 +126,25 @@ fn c08_2c_adjacent_removals_in_one_callback() {
     kani::cover!(true);
     core::mem::forget(storage); core::mem::forget(ctl);
 }
+
+// @ob id=C08.1c,C01.6b strength=bounded tier=quick timeout=2400 bound="capacity 1, T = u32; the reserve-then-insert path used by send tracks, clocks, modulators and listeners (try_reserve + insert_with_key); three create / remove cycles" fn=backend/resources.rs::{ResourceController::{try_reserve,insert_with_key,remove_unused},ResourceStorage::remove_and_add}
+// @req capacity 1; each cycle: reserve a key, insert with it, one callback picks it up, the next callback removes it
+// @ens every cycle succeeds: the caller's insert drains the unused-resource ring, so the audio side always has room to hand a removed resource back and never panics ('unused resource producer is full' unreachable), and the slot is reusable each time
+#[kani::proof]
+#[kani::unwind(5)]
+fn c08_1c_reserve_then_insert_path_drains_the_unused_ring() {
+    let (mut storage, mut ctl) = ResourceStorage::<u32>::new(1);
+    let mut cycle: u32 = 0;
+    while cycle < 3 {
+        let key = ctl.try_reserve();
+        assert!(key.is_ok(), "C08.1c: the slot freed by the previous removal is reusable");
+        ctl.insert_with_key(key.unwrap(), cycle);
+        storage.remove_and_add(|_| false);
+        assert!(ctl.len() == 1 && storage.resources.len() == 1, "C08.1c: picked up");
+        storage.remove_and_add(|_| true);
+        assert!(ctl.len() == 0 && storage.resources.len() == 0, "C08.1c: removed at the next callback, handed to the unused ring without panicking");
+        cycle += 1;
+    }
+    kani::cover!(true);
+    core::mem::forget(storage); core::mem::forget(ctl);
+}
